@@ -255,14 +255,69 @@ fn post_ops(e: &Entry, trusted: bool, v: &dyn DynValue, input: &[u8], ctx: &mut 
     Ok(())
 }
 
+/// CPU time consumed by the calling thread so far (CLOCK_THREAD_CPUTIME_ID):
+/// unlike wall-clock time it does not depend on how busy the machine is
+fn thread_cpu_ns() -> u64 {
+    let mut ts = libc::timespec { tv_sec: 0, tv_nsec: 0 };
+    // SAFETY: plain syscall writing into a local struct
+    let rc = unsafe { libc::clock_gettime(libc::CLOCK_THREAD_CPUTIME_ID, &mut ts) };
+    if rc != 0 {
+        return 0;
+    }
+    ts.tv_sec as u64 * 1_000_000_000 + ts.tv_nsec as u64
+}
+
+/// "never loops ... out of proportion to the input", as far as it can be
+/// decided per case: 0.5 s of CPU plus 20 µs per input byte. The slowest
+/// legitimate work per byte is a BLS subgroup check (~60 µs per 48-byte G1
+/// element = 1.3 µs/byte); a 4 KiB input decodes in well under 5 ms. The bound
+/// is therefore two orders of magnitude above anything the unchanged tree does
+/// and is measured in CPU time of the decoding thread, not wall-clock time; it
+/// counts only when it is exceeded by six consecutive decodes (see `probe`).
+fn cpu_bound_ns(input_len: usize) -> u64 {
+    500_000_000 + 20_000 * input_len as u64
+}
+
 /// decode `input` with both decoders under the allocation meter; on Ok run the
 /// receiver operations
 fn probe(e: &Entry, input: &[u8], ctx: &mut Ctx) -> Result<Outcome, Failure> {
     let mut out = Outcome::default();
     for trusted in [false, true] {
         arm();
+        let t0 = thread_cpu_ns();
         let r = e.decode(trusted, input);
+        let spent = thread_cpu_ns().saturating_sub(t0);
         let (peak, largest) = disarm();
+        if spent > cpu_bound_ns(input.len()) {
+            // a single excess proves nothing: on a virtual machine, time during
+            // which the hypervisor had descheduled the vCPU is charged to whatever
+            // thread was running (observed on the unchanged tree: ~1 s charged to a
+            // 36-byte decode, about once per million decodes under load). A decoder
+            // that really loops is slow EVERY time: repeat the decode five more
+            // times and report only if every single run exceeds the bound.
+            let mut runs = vec![spent];
+            for _ in 0..5 {
+                let t0 = thread_cpu_ns();
+                let _ = e.decode(trusted, input);
+                runs.push(thread_cpu_ns().saturating_sub(t0));
+            }
+            let min = *runs.iter().min().expect("six runs");
+            if min <= cpu_bound_ns(input.len()) {
+                ctx.label("time:single-slow-measurement-not-reproduced(ignored)");
+            } else {
+                vensure!(
+                    false,
+                    "C14:time:decoder-cpu-time-out-of-proportion-to-input",
+                    "{}: {} of {} input bytes consumed {:?} ms of CPU time on the decoding thread in six consecutive runs (every run above the bound 500 ms + 20 µs·len = {} ms); input = {}",
+                    e.name,
+                    if trusted { "from_bytes_unchecked" } else { "from_bytes" },
+                    input.len(),
+                    runs.iter().map(|r| r / 1_000_000).collect::<Vec<_>>(),
+                    cpu_bound_ns(input.len()) / 1_000_000,
+                    hx(input)
+                );
+            }
+        }
         vensure!(
             peak <= alloc_bound(input.len()),
             "C14:alloc:decoder-allocates-out-of-proportion-to-input",
@@ -937,7 +992,9 @@ fn big() -> &'static Vec<vstream::biglist::BigList> {
 
 fn big_lengths(b: &vstream::biglist::BigList, tier: Tier) -> Vec<usize> {
     let wire = (b.more)(0, 1, 0).len();
-    let heavy = tier == Tier::Thorough;
+    // element types whose decoding involves a BLS subgroup check stay at the
+    // short table in both tiers (a 130 000-element list costs 8 s per decode)
+    let heavy = tier == Tier::Thorough && !b.slow;
     let mut l = vstream::biglist::lengths(b.elem_size_of, wire, heavy);
     if !heavy && !b.slow && b.elem_size_of > 0 {
         let t = vstream::biglist::PREALLOC_BYTES / b.elem_size_of;
@@ -1067,7 +1124,7 @@ pub fn run_main() {
         rule: "every case picks a registry type (every Streamable type of chia-protocol, chia-bls, chia-consensus, chia-datalayer + primitive/combinator instantiations) from the choice sequence and feeds byte strings to BOTH decoders (from_bytes, from_bytes_unchecked) under a per-thread allocation meter: random bytes (0..4 KiB, uniform or biased to prefix-like bytes); valid encodings with 1-4 mutations (byte set/flip/insert/delete/duplicate, 4-byte window := interesting u32 or remaining+1, splice of another valid encoding, fill); valid encodings ± trailing bytes / minus the last byte; every (sampled when too many) 4-byte window of a valid encoding that parses as a length set to 2^32-1, 2^31, 2^24, remaining+1; synthesised sequences of nested length prefixes; Program fields replaced in place by deep nesting (0xff×n, n ≤ 200k, complete or truncated), long lists, huge atom length prefixes, back-reference storms; prefix-like positions swept over 0..=255. NON-TRIVIAL = the decoder consumed ≥ 16 bytes before its verdict (cursor position of parse for synthesised inputs; first mutated offset for inputs derived from a valid encoding) or the input decoded successfully; DISTINCT by (type, input). labels: type:<T> per-type case counts, ok / err:<kind> verdict of the untrusted decoder per decode, huge-length-prefix, deep-program:*.",
         assumptions: &[
             "peak allocation is measured per thread by a counting #[global_allocator] in this binary; requests ≥ 1 GiB are served by a lazily committed MAP_NORESERVE mapping (capped at 4 TiB) so that an unbounded pre-allocation fails the bound as an ordinary replayable failure instead of aborting the run",
-            "the 'never loops' clause is NOT asserted per case: no timing is measured; the engine's watchdog (exit 2, inconclusive) is the only safety net against a non-terminating decode, and a process death (stack overflow, allocation abort) is reported through the in-flight recorder by ./check (death_is_violation)",
+            "the 'never loops' clause is asserted per decode as: CPU time of the decoding thread (CLOCK_THREAD_CPUTIME_ID, independent of machine load) <= 0.5 s + 20 µs per input byte, two orders of magnitude above the slowest legitimate decode (BLS subgroup checks, ~1.3 µs/byte), and only reported when six consecutive decodes of the same input all exceed it (a single slow measurement can be hypervisor steal time charged to the thread; such events are counted under the label time:single-slow-measurement-not-reproduced(ignored)); a decode that never returns is caught by the engine's watchdog (exit 2, inconclusive), a process death (stack overflow, allocation abort) is reported through the in-flight recorder by ./check (death_is_violation)",
             "hash() runs under catch_unwind only to continue past known finding F3 (signature derived from the panic: file + message); every other panic is a violation",
             "receiver operations after a successful decode: to_bytes, clone, ==, hash; their results are not compared here (C13 does)",
             "cost-based sizing of per-case work uses a deterministic estimate (BLS elements counted in the Debug rendering of the generated valid value), never a clock",
